@@ -82,6 +82,8 @@ pub enum Op {
     Drop { slot: S },
     DropAllBut { keep: Vec<S> },
     NewCtx { out: S, ns: Vec<(String, String)> },
+    /// re-bind (`uri` non-empty) or remove (`uri` empty) a prefix on an evaluation context (empty prefix = default namespace)
+    CtxNs { ctx: S, prefix: String, uri: String },
     Query { ctx: S, doc: usize, expr: String, out: S },
     Checkpoint { doc: usize },
     Restart { doc: usize },
@@ -242,6 +244,7 @@ impl Step {
                 let parts: Vec<String> = ns.iter().map(|(p, u)| format!("{}>{}", p, u)).collect();
                 W::new(t, "new_ctx").n("out", *out).t("ns", &parts.join(" "))
             }
+            Op::CtxNs { ctx, prefix, uri } => W::new(t, "ctx_ns").n("ctx", *ctx).t("prefix", prefix).t("uri", uri),
             Op::Query { ctx, doc, expr, out } => W::new(t, "query").n("ctx", *ctx).n("doc", *doc).t("expr", expr).n("out", *out),
             Op::Checkpoint { doc } => W::new(t, "checkpoint").n("doc", *doc),
             Op::Restart { doc } => W::new(t, "restart").n("doc", *doc),
@@ -327,6 +330,7 @@ impl Step {
                 }
                 Op::NewCtx { out: n("out")?, ns }
             }
+            "ctx_ns" => Op::CtxNs { ctx: n("ctx")?, prefix: t("prefix")?, uri: t("uri")? },
             "query" => Op::Query { ctx: n("ctx")?, doc: n("doc")?, expr: t("expr")?, out: n("out")? },
             "checkpoint" => Op::Checkpoint { doc: n("doc")? },
             "restart" => Op::Restart { doc: n("doc")? },
@@ -380,6 +384,7 @@ impl Step {
             Op::Drop { .. } => "drop",
             Op::DropAllBut { .. } => "drop_all_but",
             Op::NewCtx { .. } => "new_ctx",
+            Op::CtxNs { .. } => "ctx_ns",
             Op::Query { .. } => "query",
             Op::Checkpoint { .. } => "checkpoint",
             Op::Restart { .. } => "restart",
